@@ -135,49 +135,90 @@ Definition is_signal (o : outcome) : bool := match o with Signal _ => true | _ =
 Definition is_crash (o : outcome) : bool := match o with Crash => true | _ => false end.
 
 Lemma w_div_signals c : fx_div c = false -> is_run_of (pipeline c w_div 10) is_signal = true.
-Proof. destruct c as [a b c0 d e f g h i]; simpl; intros ->; destruct a, b, c0; vm_compute; reflexivity. Qed.
+Proof. destruct c as [a b c0 d e f g h i]; intros H; simpl in H; subst; destruct a, b, c0; vm_compute; reflexivity. Qed.
 Lemma w_mod_signals c : fx_div c = false -> is_run_of (pipeline c w_mod 10) is_signal = true.
-Proof. destruct c as [a b c0 d e f g h i]; simpl; intros ->; destruct a, b, c0; vm_compute; reflexivity. Qed.
+Proof. destruct c as [a b c0 d e f g h i]; intros H; simpl in H; subst; destruct a, b, c0; vm_compute; reflexivity. Qed.
 Lemma w_substr_crashes c : fx_substr c = false -> is_run_of (pipeline c w_substr 10) is_crash = true.
-Proof. destruct c as [a b c0 d e f g h i]; simpl; intros ->; destruct a, b, c0; vm_compute; reflexivity. Qed.
+Proof. destruct c as [a b c0 d e f g h i]; intros H; simpl in H; subst; destruct a, b, c0; vm_compute; reflexivity. Qed.
 Lemma w_cycle_crashes c : fx_print c = false -> is_run_of (pipeline c w_cycle 10) is_crash = true.
-Proof. destruct c as [a b c0 d e f g h i]; simpl; intros ->; destruct a, b, c0; vm_compute; reflexivity. Qed.
+Proof. destruct c as [a b c0 d e f g h i]; intros H; simpl in H; subst; destruct a, b, c0; vm_compute; reflexivity. Qed.
 Lemma w_fnrange_crashes c : fx_fnrange c = false -> pipeline c w_fnrange 10 = PVerifyCrash.
-Proof. destruct c as [a b c0 d e f g h i]; simpl; intros ->; destruct a, b; vm_compute; reflexivity. Qed.
+Proof. destruct c as [a b c0 d e f g h i]; intros H; simpl in H; subst; destruct a, b; vm_compute; reflexivity. Qed.
 Lemma w_sec_pipeline c : fx_sec c = false -> pipeline c w_sec 10 = PLoadCrash.
 Proof. intros H. unfold pipeline. rewrite (w_sec_crashes c H). reflexivity. Qed.
 Lemma w_slen_pipeline c : fx_slen c = false -> pipeline c w_slen 10 = PLoadCrash.
 Proof. intros H. unfold pipeline. rewrite (w_slen_crashes c H). reflexivity. Qed.
 
-Lemma witnesses_are_files :
-  forallb (fun w => bytes_okb w && (N.of_nat (length w) <? 200)) [w_sec; w_slen; w_fnrange; w_div; w_mod; w_substr; w_cycle] = true.
-Proof. vm_compute. reflexivity. Qed.
+Ltac wok := split; [apply bytes_okb_spec; vm_compute; reflexivity | vm_compute; reflexivity].
+Lemma w_sec_file : bytes_ok w_sec /\ N.of_nat (length w_sec) < BIG. Proof. wok. Qed.
+Lemma w_slen_file : bytes_ok w_slen /\ N.of_nat (length w_slen) < BIG. Proof. wok. Qed.
+Lemma w_fnrange_file : bytes_ok w_fnrange /\ N.of_nat (length w_fnrange) < BIG. Proof. wok. Qed.
+Lemma w_div_file : bytes_ok w_div /\ N.of_nat (length w_div) < BIG. Proof. wok. Qed.
+Lemma w_mod_file : bytes_ok w_mod /\ N.of_nat (length w_mod) < BIG. Proof. wok. Qed.
+Lemma w_substr_file : bytes_ok w_substr /\ N.of_nat (length w_substr) < BIG. Proof. wok. Qed.
+Lemma w_cycle_file : bytes_ok w_cycle /\ N.of_nat (length w_cycle) < BIG. Proof. wok. Qed.
 
 (* every unrepaired site is reachable: the converse of pipeline_safe *)
 Theorem pipeline_unsafe c : c13_fixed c = false ->
   exists data fuel, bytes_ok data /\ N.of_nat (length data) < BIG /\ ~ pipe_safe (pipeline c data fuel).
 Proof.
   intros H. unfold c13_fixed in H.
-  pose proof witnesses_are_files as WF. cbn [forallb] in WF.
-  repeat (apply andb_true_iff in WF; destruct WF as [? WF]).
-  assert (OK : forall w, bytes_okb w && (N.of_nat (length w) <? 200) = true -> bytes_ok w /\ N.of_nat (length w) < BIG).
-  { intros w Hw. apply andb_true_iff in Hw. destruct Hw as [A B]. split; [apply bytes_okb_spec; exact A|]. apply N.ltb_lt in B. unfold BIG. lia. }
   destruct (fx_sec c) eqn:E1.
-  2:{ exists w_sec, 10%nat. destruct (OK w_sec) as [? ?]; [assumption|]. repeat split; try assumption. rewrite (w_sec_pipeline c E1). simpl. tauto. }
+  2:{ exists w_sec, 10%nat. destruct w_sec_file as [? ?]. repeat split; try assumption. rewrite (w_sec_pipeline c E1). simpl. tauto. }
   destruct (fx_slen c) eqn:E2.
-  2:{ exists w_slen, 10%nat. destruct (OK w_slen) as [? ?]; [assumption|]. repeat split; try assumption. rewrite (w_slen_pipeline c E2). simpl. tauto. }
+  2:{ exists w_slen, 10%nat. destruct w_slen_file as [? ?]. repeat split; try assumption. rewrite (w_slen_pipeline c E2). simpl. tauto. }
   destruct (fx_fnrange c) eqn:E3.
-  2:{ exists w_fnrange, 10%nat. destruct (OK w_fnrange) as [? ?]; [assumption|]. repeat split; try assumption. rewrite (w_fnrange_crashes c E3). simpl. tauto. }
+  2:{ exists w_fnrange, 10%nat. destruct w_fnrange_file as [? ?]. repeat split; try assumption. rewrite (w_fnrange_crashes c E3). simpl. tauto. }
   destruct (fx_div c) eqn:E4.
-  2:{ exists w_div, 10%nat. destruct (OK w_div) as [? ?]; [assumption|]. repeat split; try assumption.
+  2:{ exists w_div, 10%nat. destruct w_div_file as [? ?]. repeat split; try assumption.
       pose proof (w_div_signals c E4) as S. destruct (pipeline c w_div 10); try discriminate. simpl in *.
       destruct o; try discriminate. intros [_ A]. apply (A n). reflexivity. }
   destruct (fx_substr c) eqn:E5.
-  2:{ exists w_substr, 10%nat. destruct (OK w_substr) as [? ?]; [assumption|]. repeat split; try assumption.
+  2:{ exists w_substr, 10%nat. destruct w_substr_file as [? ?]. repeat split; try assumption.
       pose proof (w_substr_crashes c E5) as S. destruct (pipeline c w_substr 10); try discriminate. simpl in *.
       destruct o; try discriminate. intros [A _]. apply A. reflexivity. }
   destruct (fx_print c) eqn:E6; [discriminate|].
-  exists w_cycle, 10%nat. destruct (OK w_cycle) as [? ?]; [assumption|]. repeat split; try assumption.
+  exists w_cycle, 10%nat. destruct w_cycle_file as [? ?]. repeat split; try assumption.
   pose proof (w_cycle_crashes c E6) as S. destruct (pipeline c w_cycle 10); try discriminate. simpl in *.
   destruct o; try discriminate. intros [A _]. apply A. reflexivity.
 Qed.
+
+(* ------------------------------------------------------------------ a trap ends the run (C08 trap_is_final at run level) *)
+Lemma exec_trap_final c m k s f fr frs i n e s' :
+  nth_N (m_funs m) (st_fn s) = Some f -> st_frames s = fr :: frs ->
+  st_ip s < add32 (f_off f) (f_len f) ->
+  fetch m (st_ip s) (add32 (f_off f) (f_len f) - st_ip s) = FOk i n ->
+  exec_instr c m s fr frs (st_ip s) i n = SErr e s' ->
+  exec c m (S k) s = EErr e s' /\ e <> 0 /\ st_out s' = st_out s /\
+  out_of (finish (exec c m (S k) s)) = rev (st_out s).
+Proof.
+  intros Hf Hfr Hip Hfe He. cbn [exec]. rewrite Hf, Hfr. apply N.ltb_lt in Hip. rewrite Hip, Hfe, He.
+  pose proof (exec_instr_errfinal c m s fr frs (st_ip s) i n) as F. rewrite He in F. simpl in F. destruct F as [F1 F2].
+  repeat split; try assumption. simpl. rewrite F2. reflexivity.
+Qed.
+
+(* program-level C08 witness: let a = [1,2,3]; println (at a 5); return 0 *)
+Definition w_at (idx : Z) : list byte :=
+  one_fn_module (push_i64 1 ++ push_i64 2 ++ push_i64 3 ++ [88; 1; 3; 0] ++ push_i64 idx ++ [83; 164] ++ push_i64 0 ++ [61]) [s_main].
+Definition finished_with (p : pipe) (ret : Z) (out : list byte) : bool :=
+  match p with PRun _ (Finished (VInt z) s) => (z =? ret)%Z && bytes_eq (rev (st_out s)) out | _ => false end.
+Definition trapped_with (p : pipe) (code : N) (out : list byte) : bool :=
+  match p with PRun _ (VmError e s) => (e =? code) && bytes_eq (rev (st_out s)) out | _ => false end.
+Ltac cfg_cases H := match goal with c : cfg |- _ => destruct c as [a b c0 d e f g h i]; simpl in H; subst; destruct a, b, c0 end.
+(* pinned VM: the read yields void, "void\n" is printed, main returns 0 *)
+Lemma w_at_continues c : fx_arr c = false -> finished_with (pipeline c (w_at 5) 100) 0 [118; 111; 105; 100; 10] = true.
+Proof. intros H; cfg_cases H; vm_compute; reflexivity. Qed.
+(* pinned VM: index 2^32+1 reads element 1 and prints "2\n" *)
+Lemma w_at_wraps c : fx_arr c = false -> finished_with (pipeline c (w_at 4294967297) 100) 0 [50; 10] = true.
+Proof. intros H; cfg_cases H; vm_compute; reflexivity. Qed.
+(* repaired VM: VM_ERR_OUT_OF_BOUNDS, nothing printed *)
+Lemma w_at_traps c : fx_arr c = true -> trapped_with (pipeline c (w_at 5) 100) 6 [] = true /\
+                                         trapped_with (pipeline c (w_at 4294967297) 100) 6 [] = true /\
+                                         trapped_with (pipeline c (w_at (-1)) 100) 6 [] = true.
+Proof. intros H; cfg_cases H; vm_compute; repeat split; reflexivity. Qed.
+
+(* non-vacuity: a well-formed module is loaded, accepted and runs to completion under every cfg *)
+Definition w_hello : list byte := one_fn_module (push_i64 7 ++ [164] ++ push_i64 0 ++ [61]) [s_main].
+Lemma w_hello_runs : finished_with (pipeline cfg_fixed w_hello 100) 0 [55; 10] = true /\
+                     finished_with (pipeline cfg_pinned w_hello 100) 0 [55; 10] = true.
+Proof. vm_compute. split; reflexivity. Qed.
